@@ -151,9 +151,11 @@ func buildDepItems(w *ixWorld) {
 // ---------------------------------------------------------------- sequential reference
 
 type ixRef struct {
-	rows  []string
-	finfo map[string]string // item name -> canonical GetFileInfo answer
-	err   error
+	rows []string
+	// the sorted permanode listings (refs, newest first)
+	created, modified []string
+	finfo             map[string]string // item name -> canonical GetFileInfo answer
+	err               error
 }
 
 var (
@@ -187,7 +189,7 @@ func fileInfoString(x *hw.Idx, it *ixItem) (string, error) {
 }
 
 // refOrder is every blob of the history in dependency order.
-func refOrder(w *ixWorld, deps, handler bool) []sto.Blob {
+func refOrder(w *ixWorld, deps, handler, tail bool) []sto.Blob {
 	out := []sto.Blob{w.signer.Pub}
 	out = append(out, w.pns...)
 	for _, cs := range w.claims {
@@ -201,6 +203,11 @@ func refOrder(w *ixWorld, deps, handler bool) []sto.Blob {
 		out = append(out, w.parent)
 		out = append(out, w.members...)
 	}
+	if tail {
+		out = append(out, w.doomed...)
+		out = append(out, w.doomedClaims...)
+		out = append(out, w.doomedDeletes...)
+	}
 	if deps {
 		// items were appended dependencies first, except the shared chunk and the key, which come
 		// before their dependents too
@@ -213,10 +220,10 @@ func refOrder(w *ixWorld, deps, handler bool) []sto.Blob {
 
 // getIxRef delivers the whole world sequentially, in dependency order, into a fresh index
 // without any perturbation and records the rows and the answers.
-func getIxRef(key string, w *ixWorld, deps, handler bool) *ixRef {
+func getIxRef(key string, w *ixWorld, deps, handler, tail bool) *ixRef {
 	ixRefMu.Lock()
 	defer ixRefMu.Unlock()
-	k := fmt.Sprintf("%s/%v/%v", key, deps, handler)
+	k := fmt.Sprintf("%s/%v/%v/%v", key, deps, handler, tail)
 	if r, ok := ixRefs[k]; ok {
 		return r
 	}
@@ -227,7 +234,7 @@ func getIxRef(key string, w *ixWorld, deps, handler bool) *ixRef {
 		r.err = err
 		return r
 	}
-	for _, b := range refOrder(w, deps, handler) {
+	for _, b := range refOrder(w, deps, handler, tail) {
 		if err := x.Deliver(b); err != nil {
 			r.err = fmt.Errorf("reference delivery of %v: %w", b.Ref, err)
 			return r
@@ -242,6 +249,8 @@ func getIxRef(key string, w *ixWorld, deps, handler bool) *ixRef {
 		r.err = err
 		return r
 	}
+	cr, mo := sortedListings(x)
+	r.created, r.modified = refStrings(cr), refStrings(mo)
 	if deps {
 		for i := range w.items {
 			it := &w.items[i]
